@@ -21,6 +21,9 @@ for d in sorted(os.listdir(os.path.join(HERE, "seeded"))):
         summ = summ[:167] + "..."
     rc, cls, chk = res.get(d, ("not swept", [], None))
     verdict = "caught" if rc == "rc=1" else rc
+    if cls and cls[-1] == "[default-budget]":
+        cls = cls[:-1]
+        verdict = "caught with the check's default budget (all cores, registered quick time); missed by the thin sweep"
     if chk and chk != d.split("-")[0] and rc == "rc=1":
         verdict = "caught by the %s check (see meta.json)" % chk
     rows.append("| %s | %s | %s | %s |" % (d, summ, verdict, "<br>".join("`%s`" % c for c in cls[:3])))
